@@ -245,25 +245,45 @@ class BatchAddX:
 
 @contract(f"{E}::EcCurve.PointTable")
 class PointTable:
-  """Index space of the baby-step table, for every n and every curve: the inner loop stores the value i*m + j for
-  every i < len(sequence_high), j < len(sequence_low) with len(sequence_low) == m (the stride), and these index pairs
-  reach every value in [0, n).  That the stored KEY is the x-coordinate of (i*m + j)*base is group arithmetic
-  (bounded/c11.py point_sequence_and_table)."""
+  """For every n and every curve.  (1) Index space: the inner loop stores the value i*m + j for every
+  i < len(sequence_high), j < len(sequence_low) with len(sequence_low) == m (the stride), and these index pairs reach
+  every value in [0, n).  (2) Group view (bridge clauses of PointSequence's callees and of BatchAddX assumed): the result
+  is a correct baby-step table - every v * base with v < n has its key (the canonical x-coordinate, or the key None for
+  the identity) in the table, and every stored value v' under a key k satisfies x(v' * base) == k."""
   frame_props = ["C10", "C11", "C17"]
   params = {"base": "point", "n": "int"}
   self_fields = CURVE_FIELDS
   returns = "dict[int,int]"
   requires = CURVE_REQ + ["wf_point(base)", "onp(self, base)"]
   raises = {"ArithmeticError": None}
+  ensures = [("C10", "table_ok(self, result, n, eltp(self, base))")]
+  caller_ensures = ["table_ok(self, result, n, eltp(self, base))"]
+  B_ = "eltp(self, base)"
   on_call = {f"{E}::EcCurve.BatchAddX": [
       "assert [C10,C11,C17] m >= 1 and len(args[1]) == m and len(sequence_low) == m",
       "assert [C10,C11,C17] im == i * m",
       # every index x in [0, n) is (x // m) * m + (x % m) with x // m < len(sequence_high)
       "check [C10,C11,C17] forall(x, 0, n, divmod_def(x, m) and 0 <= idiv(x, m) and idiv(x, m) < len(sequence_high) "
-      "and 0 <= x - idiv(x, m) * m and x - idiv(x, m) * m < len(args[1]))"]}
-  loops = {0: dict(invariant=["True"], types={"res": "dict[int,int]"}),
-           1: dict(invariant=["im == i * m"], types={"res": "dict[int,int]"},
-                   body_end=[("C10,C11,C17", "res[x] == i * m + _i1")])}
+      "and 0 <= x - idiv(x, m) * m and x - idiv(x, m) * m < len(args[1]))",
+      # p == i * (m * base) == (i m) * base
+      "lemma('gmul_mul', self.a, self.b, self.mod, i, m, eltp(self, base))",
+      "assert [C10] eltp(self, p) == gmul(self, i * m, eltp(self, base))"]}
+  KEYS = ("forall((k,), dict_has(res, k), gmul(self, res[k], eltp(self, base)) != gzero(self) and "
+          "gxc(self, gmul(self, res[k], eltp(self, base))) == k) and "
+          "implies(dict_has(res, None), gmul(self, res[None], eltp(self, base)) == gzero(self))")
+  COV = ("forall(v, 0, %s, (dict_has(res, None) if gmul(self, v, eltp(self, base)) == gzero(self) else "
+         "dict_has(res, gxc(self, gmul(self, v, eltp(self, base))))))")
+  loops = {0: dict(invariant=[("C10", "m >= 1 and len(sequence_low) == m and len(sequence_high) * m >= n"),
+                              ("C10", "forall(k, 0, len(sequence_low), onp(self, sequence_low[k]) and "
+                                      "eltp(self, sequence_low[k]) == gmul(self, k, eltp(self, base)))"),
+                              ("C10", "forall(k, 0, len(sequence_high), onp(self, sequence_high[k]) and eltp(self, sequence_high[k]) "
+                                      "== gmul(self, k, gmul(self, m, eltp(self, base))))"),
+                              ("C10", KEYS), ("C10", COV % "i * m")],
+                   types={"res": "dict[int,int]"}),
+           1: dict(invariant=["im == i * m", ("C10", KEYS), ("C10", COV % "i * m + j")], types={"res": "dict[int,int]"},
+                   body_end=[("C10,C11,C17", "res[x] == i * m + _i1"),
+                             # the entry just written: its key is the x-coordinate (or None) of (i m + j) * base
+                             ("C10", "lemma('gmul_add', self.a, self.b, self.mod, i * m, _i1, eltp(self, base))")])}
   var_types = {"res": "dict[int,int]"}
   props = ["C10", "C11", "C17"]
 
